@@ -961,8 +961,10 @@ func (r *Reader) markdownWithHeadingLevels(opts ExtractOptions, headingLevel fun
 				if i > 0 {
 					result.WriteString("\n")
 				}
+				// four blanks per level: a nested item must reach the content
+				// column of its parent ("1. " is three columns wide)
 				for j := 0; j < item.Level; j++ {
-					result.WriteString("  ")
+					result.WriteString("    ")
 				}
 				if elem.Ordered {
 					result.WriteString("1. ")
